@@ -146,7 +146,11 @@ def main(chk):
     rnd = random.Random(chk.seed)
     quick = chk.tier == 'quick'
     n = 240 if quick else 3000
-    base = variants.mixed_units(rnd, n) + termgen.random_join_units(rnd, n // 6) + termgen.random_analytic_units(rnd, n // 8)
+    from harness import viral
+    nested = viral.nested_units(rnd, n // 3)         # dataset-dataset operators, aggregations and set operators nested in one expression
+    for j, u in enumerate(nested):
+        u['id'] = 'nest%d' % j
+    base = variants.mixed_units(rnd, n) + termgen.random_join_units(rnd, n // 6) + termgen.random_analytic_units(rnd, n // 8) + nested
     # only units the engine gets right with their ordinary names are judged here (other failures belong to C01-C06)
     from harness import report
     side = report.Check(chk.pid, chk.tier, chk.seed, LEVEL)
